@@ -127,6 +127,8 @@ class C06(Prop):
         kinds = list(ATOMS)
         for i in range(n):
             k = r.randint(3, 14)
+            if i % 150 == 7:
+                k = r.randint(1300, 1700)  # one wrap unit of more than 8 KB
             units, gaps, meta = [], [], []
             for j in range(k):
                 x = r.random()
@@ -178,6 +180,13 @@ class C06(Prop):
             b = " ".join(plain_word(r, 8) for _ in range(r.randint(2, 8)))
             yield {"kind": "hbtag", "text": f"Start {a}{r.choice([chr(92), '  '])}\n{tag}\nThen {b}\n", "tag": tag,
                    "opts": [[88, False], [88, True], [r.randint(10, 40), r.random() < 0.5]]}
+        for i in range(6 if tier == "quick" else 60):
+            # a heading directly followed by a table (or list) inside a pair of tag lines: the closing tag keeps its blank line
+            o_, c_ = r.choice([("{% field %}", "{% /field %}"), ("<!-- s -->", "<!-- /s -->"), ("{# a #}", "{# /a #}")])
+            blk = r.choice(["| a | b |\n|---|---|\n| c | d |", "- one\n- two", "| x |\n|:-:|\n| y |"])
+            gap = r.choice(["", "\n"])
+            yield {"kind": "hbtag", "text": f"{o_}\n\n## Title {plain_word(r, 6)}\n{gap}{blk}\n\n{c_}\n\nafter\n", "tag": c_, "blank_before_tag": True,
+                   "opts": [[88, False], [88, True], [r.randint(20, 60), r.random() < 0.5]]}
         nd = 25 if tier == "quick" else 250
         for i in range(nd):
             yield {"kind": "tagdoc", "seed": r.getrandbits(40), "opts": [[88, False], [r.randint(10, 60), r.random() < 0.5], [0, True]]}
@@ -194,8 +203,11 @@ class C06(Prop):
                 col.count("raised_cases_left_to_C12")
                 continue
             col.distinct("hbtag", case["text"], w, sem)
-            if case["tag"] not in out.split("\n"):
+            lines_ = out.split("\n")
+            if case["tag"] not in lines_:
                 col.violation("taglines", "C06/tagline/not-alone-on-unindented-line/after-hard-break", dict(case, opts=[[w, sem]]), {"output": out[:300]})
+            elif case.get("blank_before_tag") and lines_[lines_.index(case["tag"]) - 1].strip() != "":
+                col.violation("taglines", "C06/tagline/no-blank-line-before-closing-tag", dict(case, opts=[[w, sem]]), {"output": out[:300]})
 
     # ------------------------------------------------------------------ units
     def _check_units(self, case, col):
